@@ -16,7 +16,7 @@ ID = "C01"
 RULE = ("random shots with twist 0 (all shipped tables + smooth custom tables, BC 0.05-1.2, 300-3500 ft/s, sight heights, look "
         "+-45 deg, zero / relative angles to 40 deg, cant to +-90 deg, ICAO / altitude / arbitrary station / vacuum, 0-4 wind "
         "segments incl. boundaries inside / at / beyond the range and opposing winds), ranges 300-4500 ft, 6-12 recorded "
-        "distances; each fired at step h0, h0/2, h0/4 (thorough: h0/8 and h0 in {0.25,0.5,1,2}); a case = (shot, range, h0); "
+        "distances; each fired at step h0, h0/2, h0/4 (thorough: also h0/8, and h0 in {0.5, 0.25, 0.125}); a case = (shot, range, h0); "
         "non-trivial when the shot has wind, a non-zero look / cant angle, an altitude change above 30 ft or is a vacuum shot")
 MUST_OBSERVE = ["shots", "rows_compared", "shots_with_wind_switch_inside_range", "shots_altitude_change_over_30ft", "vacuum_shots",
                 "shots_canted", "shots_inclined", "halvings_checked", "muzzle_rows_checked", "reference_runs"]
@@ -213,7 +213,10 @@ def gen_case(rng, thorough=False):
     if len(s["winds"]) >= 2 and rng.random() < 0.5:
         s["winds"][1][1] = (s["winds"][0][1] + 180.0) % 360.0               # opposing
         s["winds"][1][0] = max(s["winds"][1][0], 30.0)
-    h0 = 0.5 if not thorough else rng.choice([0.25, 0.5, 1.0, 2.0])
+    # base steps at or below the default only: above it the error is not yet in its asymptotic (first-order) regime -
+    # the h and h^2 terms have opposite signs for speed and the error toward the reference is not monotone in h
+    # (measured: 1.6e-2, 3.8e-2 ft/s at 2 ft, 1 ft) - and the statement speaks of refining the step
+    h0 = 0.5 if not thorough else rng.choice([0.5, 0.5, 0.25, 0.125])
     return {"shot": s, "range_ft": r_ft, "rows": n_rows, "h0": h0, "halvings": 2 if not thorough else 3}
 
 
